@@ -56,7 +56,7 @@ func appendOracle(p *run.Part, check string, w *seqx.World, pre *seqx.Pre, op se
 	if e.GetClock().GetTime() <= maxT {
 		p.Violate(check, "C04:time-not-greater", fmt.Sprintf("after %s: appended entry has time %d, the log already held an entry with time %d", path, e.GetClock().GetTime(), maxT), c)
 	}
-	if st.UID >= 0 && w.M.Entries[st.UID].Time != e.GetClock().GetTime() {
+	if st.TimeAboveMin || st.TimeBelowMin {
 		// the model's time is max+1: the smallest time that satisfies the statement. A larger time is allowed by the statement, so this is only counted, not judged.
 		p.IncExtra("append_time_above_minimum", 1)
 	} else {
